@@ -561,8 +561,8 @@ inline void t_table(In& in)
       case 3: if (v) tryIt([&] { dt->deleteColumn(dt->getColumnName(k)); }); else tryIt([&] { dt->deleteColumn(ck); }); break;
       case 4:
         tryIt([&] { std::vector<std::string> nm; for (size_t i = 0; i < (v ? dt->getNumberOfRows() : k); ++i) nm.push_back("r" + std::to_string(i)); dt->setRowNames(nm); });
-        // (setRowName on a table without row names is not driven: DataTable::setRowName indexes the empty name list - see notes/C16.md)
-        if (dt->hasRowNames()) tryIt([&] { dt->setRowName(k, v ? "r0" : "q" + std::to_string(k)); });
+        // also on a table without row names (that wrote out of bounds before repair c104d85)
+        tryIt([&] { dt->setRowName(k, v ? "r0" : "q" + std::to_string(k)); });
         break;
       case 5:
         tryIt([&] { std::vector<std::string> nm; for (size_t i = 0; i < (v ? dt->getNumberOfColumns() : k); ++i) nm.push_back("c" + std::to_string(i)); dt->setColumnNames(nm); });
@@ -606,6 +606,29 @@ inline void t_table(In& in)
   DataTable copy(*dt);
   use(copy.getNumberOfRows());
   checkTable(copy, "copy");
+  // assignment onto targets of another shape with and without names of their own: the target's names must not
+  // survive when the source has none (they did before repair 5ed8159), and the reverse direction
+  {
+    DataTable named(2, std::vector<std::string>{ "ca", "cb", "cc" });
+    tryIt([&] { named.setRowNames(std::vector<std::string>{ "ra", "rb" }); });
+    DataTable plain(3, 1);
+    DataTable t1(named);
+    t1 = *dt;
+    checkTable(t1, "assignment onto a named 2x3 table");
+    tryIt([&] { use(t1.getRow("ra")); }); tryIt([&] { use(t1.getColumn("cc")); }); tryIt([&] { t1.deleteRow("rb"); }); tryIt([&] { t1.deleteColumn("ca"); });
+    checkTable(t1, "by-name edits after assignment onto a named table");
+    DataTable t2(plain);
+    t2 = *dt;
+    checkTable(t2, "assignment onto an unnamed 3x1 table");
+    DataTable t3(*dt);
+    t3 = plain;
+    checkTable(t3, "assignment of an unnamed 3x1 table");
+    tryIt([&] { if (dt->hasRowNames() && dt->getNumberOfRows() > 0) use(t3.getRow(dt->getRowName(0))); });
+    tryIt([&] { if (dt->hasColumnNames() && dt->getNumberOfColumns() > 0) use(t3.getColumn(dt->getColumnName(0))); });
+    DataTable t4(*dt);
+    t4 = named;
+    checkTable(t4, "assignment of a named 2x3 table");
+  }
 }
 
 // ------------------------------------------------------------------ 7. distribution descriptions
